@@ -308,6 +308,26 @@ func (g *pgen) assign() []interface{} {
 	return []interface{}{nRaw(sAssign(eId(x), eBin("%", t.genInt(2).e, eNum("31"))))}
 }
 
+// a Go struct from the page data as the test of a conditional, before and after one of its members has been read: whatever the
+// engine takes its truth value to be, it is the same both times
+func goTruthCase(rr *Rng) Case {
+	kind := []string{"zerostruct", "zeroptr", "somestruct"}[rr.Intn(3)]
+	test := func() J {
+		return nIf(eId("cust"), []interface{}{nText("T")}, []interface{}{nText("F")})
+	}
+	doc := []interface{}{test(), nText("|")}
+	switch rr.Intn(3) {
+	case 0:
+		doc = append(doc, nBuf(eDot(eId("cust"), "name"), true))
+	case 1:
+		doc = append(doc, nIf(eDot(eId("cust"), "orders"), []interface{}{nText("o")}, nil))
+	default:
+		doc = append(doc, nRaw(sVar("nm", eDot(eId("cust"), "count"))))
+	}
+	doc = append(doc, nText("|"), test(), nText("|"), nIf(eBin("&&", eId("cust"), eBool(true)), []interface{}{nText("T")}, []interface{}{nText("F")}))
+	return Case{"kind": "render", "doc": doc, "data": J{"cust": J{"__go": kind}}, "go_data": true, "bucket": "go-truthiness", "what": "struct as a test: " + kind}
+}
+
 func genC02(r *Rng, n int, tier string, emit func(Case)) {
 	maxd := 3
 	if tier == "thorough" {
@@ -318,6 +338,10 @@ func genC02(r *Rng, n int, tier string, emit func(Case)) {
 		capBudget = 60
 	}
 	for i := 0; i < n; i++ {
+		if i%50 == 49 {
+			emit(goTruthCase(r.Fork()))
+			continue
+		}
 		t := newTenv(r.Fork())
 		t.data["empty"] = []interface{}{}
 		g := &pgen{t: t, stats: map[string]int{}}
